@@ -1086,13 +1086,15 @@ fn extract_fn(file: &syn::File, src: &Src, it: &Item) -> ItemOut {
             let want = rt.split('<').next().unwrap_or("").trim().to_string();
             let ok = t.starts_with("impl ") && match block.stmts.last() {
                 Some(syn::Stmt::Expr(syn::Expr::Struct(es), None)) => last_seg(&es.path) == want,
+                // or an associated-function call `Want::ctor(..)` (the declared type is then checked by rustc inside Verus)
+                Some(syn::Stmt::Expr(syn::Expr::Call(c), None)) => matches!(&*c.func, syn::Expr::Path(p) if p.path.segments.len() == 2 && p.path.segments[0].ident == want.as_str()),
                 _ => false,
             };
             if ok {
                 out.edits.push(EditOut { rule: "E10b opaque return type concretised to the struct type of the tail literal".into(), line: src.line_of(ts), from: t.clone(), to: rt.clone() });
                 t = rt.clone();
             } else {
-                out.errors.push(format!("E10b: side condition failed: return type is not `impl ..` or the tail expression is not a `{want} {{ .. }}` literal"));
+                out.errors.push(format!("E10b: side condition failed: return type is not `impl ..` or the tail expression is neither a `{want} {{ .. }}` literal nor a `{want}::f(..)` call"));
             }
         }
         if t.starts_with("impl ") && !t.contains("use<") { t.push_str(" + use<'_>"); }
